@@ -46,6 +46,9 @@ func sendTx(s *chainsim.Sim, rng *rand.Rand, entropy int64) sentTx {
 	default:
 		toAddr = s.Addr(rng.Intn(7))
 	}
+	if len(s.Cfg.BigBase) > 0 && rng.Intn(3) == 0 {
+		toAddr = s.Addr(9) // the account whose balance sits just below 2^64
+	}
 	toName = s.Name(toAddr)
 	fee := int64(10000)
 	switch rng.Intn(10) {
@@ -170,7 +173,15 @@ func traceAuth(out string, nTraces, blocks int) {
 	rep := hx.NewReport("chain", "trace-auth")
 	for t := 0; t < nTraces; t++ {
 		rng := hx.Rng(int64(t) + 4242)
-		s := chainsim.New(stdConfig(hx.Seed()*1000 + int64(t)))
+		cfg := stdConfig(hx.Seed()*1000 + int64(t))
+		if t%3 == 2 {
+			// every third chain: a10, which only ever RECEIVES, holds 2^64 - 5000 uPOKT (the projection subtracts
+			// the offset again), so that ordinary sends carry a balance across the machine-word boundary.  (A
+			// sender cannot be offset: the specification decides "enough funds" from the projected balance.)
+			cfg.Balances[9] = 5000
+			cfg.BigBase = map[int]string{9: "18446744073709541616"}
+		}
+		s := chainsim.New(cfg)
 		r := chainsim.NewRecorder(s, tw)
 		r.Focus = []string{"h", "bal", "supply", "nopk", "badCoins", "val", "app"}
 		members := []int{7, 8}
